@@ -126,3 +126,20 @@ def run(ctx):
                                 limE.add(fe)
                 ok = all(h.uncrossed_path([d for _, d in errE], [blk], edges=limE, blocks=[outer]) is None for blk in rets)
                 r4.check(ok, "failure-return-only-at-limit", "explicit returns in the failure arm depend on checkout_failure_limit", "the failure arm returns without consulting checkout_failure_limit")
+
+    # ---------------- R5 nothing keeps the guard past the end of the transaction
+    r5 = ctx.rule("C04-R5", "the state that delays the release of the pooled connection cannot stick: Server.in_copy_mode, which the release test of Client::handle reads, is cleared on every way through the "
+                  "CommandComplete and ErrorResponse arms of Server::recv and set only by the CopyIn/CopyOut/CopyBoth responses", floor=4)
+    from common import copy_mode_findings
+    for key, ok, where, wit in copy_mode_findings(F):
+        if ok is None:
+            r5.missing(key)
+        else:
+            r5.check(ok, key, "copy mode: %s" % key, {
+                "copy-ends": "a COPY that ends this way leaves in_copy_mode set: the release test `transaction_mode && !server.in_copy_mode()` stays false after ReadyForQuery, the idle client keeps the pooled connection and waiters starve",
+                "copy-starts": "in_copy_mode is set outside the CopyInResponse/CopyOutResponse/CopyBothResponse arms",
+                "copy-flag-writers": "in_copy_mode is written outside Server::recv: " + where}.get(key.split(":")[0], key), where, wit)
+    if h:
+        hsw = switches(h)
+        Tc, Fc, _ = call_bool_edges(h, "pgcat::server::Server::in_copy_mode", switches_cache=hsw)
+        r5.check(bool(Fc), "release-reads-copy-mode", "the release test in Client::handle reads Server::in_copy_mode()", "Client::handle no longer reads in_copy_mode() (rule needs re-anchoring)")
